@@ -1258,3 +1258,9 @@ fault("c11-load-in-a-generator-behind-the-guard", "C11", "R11a",
 twin("c11-twin-generator-materialised-under-the-guard", "C11",
      (DIR, "                with self.vfs.open(self.cachename, \"rb\") as fp:\n                    self.fileentries = pickle.load(fp)\n", "                self.fileentries = list(self.readcache())\n"),
      (DIR,) + _C11_GEN_READER)
+fault("c07-stat-of-the-selector-cut-at-a-query-mark", "C07", "R07u",
+      (HM, "        statresult = vfs.stat(selector)\n", "        statresult = vfs.stat(selector.split(\"?\")[0])\n"))
+fault("c07-stat-of-the-case-folded-selector", "C07", "R07u",
+      (HM, "        statresult = vfs.stat(selector)\n", "        statresult = vfs.stat(selector.lower())\n"))
+twin("c07-twin-stat-through-an-alias", "C07",
+     (HM, "        statresult = vfs.stat(selector)\n", "        asked = selector\n        statresult = vfs.stat(asked)\n"))
